@@ -105,6 +105,13 @@ Theorem C08_prove_path_ok : forall resolve n,
 Proof. exact prove_path_ok. Qed.
 Print Assumptions C08_prove_path_ok.
 
+(* the tries of the theorems include everything Update/Delete histories build:
+   a canonical trie (OpsProofs.can, preserved by insert/delete: C06) with
+   non-empty values and keys/values below the size guard is [pwf] *)
+Theorem C08_can_pwf : forall n, can n -> sized n -> pwf n.
+Proof. exact can_pwf. Qed.
+Print Assumptions C08_can_pwf.
+
 (* VerifyProof trusts the database's keys: on a database that is NOT keyed by
    hash it can be sent round a cycle for ever (the soundness theorems assume
    [db_keyed]) *)
